@@ -4,6 +4,7 @@ package sim
 // the deviations the property statements list, and the network attacker's tamper operators.
 
 import (
+	"strings"
 	"fmt"
 	"time"
 )
@@ -14,6 +15,12 @@ func (g G) drawSLO(label string, w *WorldCfg, sp int) *MsgSpec {
 	if g.chance(label+".relay", 70) {
 		m.HasRelay = true
 		m.RelayState = g.text(label+".relayv", "lrelay", false)
+		switch g.weighted(label+".relaylen", 90, 6, 4) {
+		case 1:
+			m.RelayState = padTo(m.RelayState, 80)
+		case 2:
+			m.RelayState = padTo(m.RelayState, 79)
+		}
 	}
 	m.DestMode = g.pick(label+".dest", "advertised", "advertised", "absent")
 	m.IssueInstantNs = -int64(g.rng(label+".ii", 0, 120)) * int64(time.Second)
@@ -62,6 +69,16 @@ func (g G) drawAttrQ(label string, w *WorldCfg, sp int) *MsgSpec {
 			}
 			m.Requested = append(m.Requested, a)
 		}
+		if g.chance(label+".twofmt", 15) {
+			// one Name requested under two name formats, the user's real one first
+			a := pool[g.intn(label+".twofmt.a", len(pool))]
+			other := a
+			other.Format = g.pick(label+".twofmt.f", "urn:oasis:names:tc:SAML:2.0:attrname-format:uri", "urn:oasis:names:tc:SAML:2.0:attrname-format:unspecified", "")
+			if other.Format == a.Format {
+				other.Format = "urn:example:format:other"
+			}
+			m.Requested = append(m.Requested, a, other)
+		}
 		if g.chance(label+".dupreq", 15) && len(m.Requested) > 0 {
 			m.Requested = append(m.Requested, m.Requested[0])
 		}
@@ -71,7 +88,7 @@ func (g G) drawAttrQ(label string, w *WorldCfg, sp int) *MsgSpec {
 
 // deviate applies one deviation from conformance out of the lists in the statements of C06 / C12 / C13.
 func (g G) deviate(label string, m *MsgSpec) {
-	opts := []string{"b64-garbage", "b64-garbage", "deflate-cut", "dest-issuer-route", "dest-issuer-route", "dest-metadata-base", "dest-other-host", "dest-other-host", "issuer-absent", "issuer-empty", "issuer-other", "issuer-rogue", "issuer-lookalike", "issuer-case", "issuer-space",
+	opts := []string{"b64-garbage", "b64-garbage", "deflate-cut", "dest-issuer-route", "dest-issuer-route", "dest-metadata-base", "dest-query", "dest-bare-query", "dest-fragment", "dest-userinfo", "dest-pct", "dest-request-host", "dest-request-host", "dest-other-host", "dest-other-host", "issuer-absent", "issuer-empty", "issuer-other", "issuer-rogue", "issuer-lookalike", "issuer-case", "issuer-space",
 		"dest-other", "dest-foreign", "dest-case", "dest-upper", "dest-slash", "dest-scheme", "dest-empty",
 		"noid", "emptyid", "noversion", "emptyversion", "version11", "timelit", "window-past", "window-future", "encoding", "sigalg-nosig", "empty-request", "double-encode",
 		"rogue-sp", "struct"}
@@ -99,6 +116,8 @@ func (g G) deviate(label string, m *MsgSpec) {
 		m.DestMode = "issuer-route"
 	case "dest-metadata-base":
 		m.DestMode = "metadata-base"
+	case "dest-query", "dest-bare-query", "dest-fragment", "dest-userinfo", "dest-pct", "dest-request-host":
+		m.DestMode = strings.TrimPrefix(g.pick(label+".same", "dest-query", "dest-bare-query", "dest-fragment", "dest-userinfo", "dest-pct", "dest-request-host", "dest-request-host"), "dest-")
 	case "b64-garbage":
 		m.Tamper = append(m.Tamper, Tamper{Op: "b64_garbage", S: g.pick(label+".bg", "!!!!", "====", "=", "\x00\x00", "%%%", "A", "AAAA====", " <x/>", "*")})
 	case "deflate-cut":
@@ -128,7 +147,7 @@ func (g G) deviate(label string, m *MsgSpec) {
 	case "version11":
 		m.Version = "1.1"
 	case "timelit":
-		m.TimeLit = g.pick(label+".tl", "yesterday", "2020-01-01", "2020-01-01T00:00:00", "2020-01-01T00:00:00+01:00", "2020-13-01T00:00:00Z", " 2020-01-01T00:00:00Z", "1577836800", "2020-01-01t00:00:00z", "2020-01-01T24:00:00Z", "--", "0")
+		m.TimeLit = g.pick(label+".tl", "yesterday", "2020-01-01", "2020-01-01T00:00:00", "2020-01-01T00:00:00+01:00", "2020-13-01T00:00:00Z", " 2020-01-01T00:00:00Z", "1577836800", "2020-01-01t00:00:00z", "2020-01-01T24:00:00Z", "--", "0", "0001-01-01T00:00:00Z", "0001-01-01T00:00:00.000Z", "0000-01-01T00:00:00Z", "9999-12-31T23:59:59Z", "1970-01-01T00:00:00Z", "-0001-01-01T00:00:00Z")
 		m.TimeLitWhich = g.intn(label+".tlw", 2)
 	case "window-past":
 		m.HasNotOnOrAfter, m.NotOnOrAfterNs = true, -g.drawSpan(label+".past")
@@ -200,7 +219,7 @@ func (g G) tamper(label string, m *MsgSpec) {
 		var ops []string
 		switch m.Binding {
 		case "post", "soap":
-			ops = append(common, "strip_sig", "drop_keyinfo", "foreign_keyinfo", "sigvalue_flip", "digest_flip", "empty_sigvalue", "post_deflate", "wrap", "sigvalue_flip")
+			ops = append(common, "ref_uri", "ref_uri", "strip_sig", "drop_keyinfo", "foreign_keyinfo", "sigvalue_flip", "digest_flip", "empty_sigvalue", "post_deflate", "wrap", "sigvalue_flip")
 			if m.Binding == "post" {
 				ops = append(ops, "query_shadow", "query_shadow")
 			}
@@ -208,7 +227,7 @@ func (g G) tamper(label string, m *MsgSpec) {
 				ops = append(ops, "soap_header_wrap", "soap_header_wrap")
 			}
 		default:
-			ops = append(common, "strip_sigparams", "sig_flip", "swap_sigalg", "foreign_sig", "dup_param", "truncate_query", "move-post", "empty-sig", "sig_flip", "dsa_forge", "body-override", "body-override")
+			ops = append(common, "strip_sigparams", "sig_flip", "swap_sigalg", "foreign_sig", "dup_param", "truncate_query", "move-post", "empty-sig", "sig_flip", "dsa_forge", "body-override", "body-override", "blank-sig", "blank-sig")
 		}
 		switch op := g.pick(lab+".op", ops...); op {
 		case "field-acs":
@@ -249,6 +268,12 @@ func (g G) tamper(label string, m *MsgSpec) {
 			if m.Sign == "" {
 				m.Sign = "rsa-sha256"
 			}
+		case "ref_uri":
+			// the Reference of the enveloped signature points somewhere else / nowhere / at something that is not an ID at all
+			m.Tamper = append(m.Tamper, Tamper{Op: "ref_uri", S: g.pick(lab+".ru", "#_it's", "#_req[1]", "#", "", "#a b", "#//*", "#']", "#_x\"y", "#[", "_noHash", "#_evil", "#xpointer(/)", "#xpointer(id('_a'))")})
+			if m.Sign == "" && m.Binding != "redirect" {
+				m.Sign = "rsa-sha256"
+			}
 		case "strip_sig":
 			m.Tamper = append(m.Tamper, Tamper{Op: "strip_sig"})
 		case "drop_keyinfo":
@@ -285,6 +310,9 @@ func (g G) tamper(label string, m *MsgSpec) {
 			m.Method = "POST-override"
 		case "empty-sig":
 			m.Tamper = append(m.Tamper, Tamper{Op: "empty_param", S: "Signature"})
+		case "blank-sig":
+			// a Signature parameter that is present but consists of white space only, with or without the SigAlg
+			m.Tamper = append(m.Tamper, Tamper{Op: "blank_sig", S: g.pick(lab+".bs", "%20", "+", "%09", "%0D%0A", "%20%20"), A: g.intn(lab+".bsa", 2)})
 		}
 	}
 }
